@@ -1654,6 +1654,9 @@ class ListProxy(list):
         if isinstance(index, (int, slice)):
             if self._parameter.names:
                 self._warn('[index] = object')
+            if isinstance(index, slice):
+                # (any iterable, also one that can only be consumed once)
+                object = list(object)
             with self._trigger():
                 super().__setitem__(index, object)
                 self._parameter._objects[index] = object
@@ -1701,6 +1704,8 @@ class ListProxy(list):
     def extend(self, objects):
         if self._parameter.names:
             self._warn('.append')
+        # (any iterable, also one that can only be consumed once)
+        objects = list(objects)
         with self._trigger():
             super().extend(objects)
             self._parameter._objects.extend(objects)
